@@ -8,6 +8,7 @@ import (
 	"fmt"
 	"sort"
 	"strings"
+	"sync"
 
 	"github.com/New-JAMneration/JAM-Protocol/internal/keystore"
 	"github.com/New-JAMneration/JAM-Protocol/internal/safrole"
@@ -111,6 +112,8 @@ type genesis struct {
 	sharedBlob        []byte // solicited by every service of the genesis state
 	permutedSets      bool
 	specialKeys       int // storage entries whose state key has a chosen second octet
+	prefixTwins       bool // two storage entries whose state keys share their first eight octets
+	manySolicited     int // number of additional solicited blobs of the first service
 	populous          int // number of additional (inert) services of a populous genesis state
 	specialIDs   int // services whose identifier comes from the pool of special magnitudes / octet patterns
 }
@@ -356,10 +359,35 @@ func mkGenesis(t *sim.Tape) *genesis {
 				}
 			}
 		}
+		// two storage entries whose STATE keys agree in their first eight octets (the four identifier octets interleaved
+		// with four hash octets): deep in the trie they share a long path, and anything that abbreviates a key to a
+		// machine word cannot tell them apart. Found once per process by a birthday search over ~10^5 keys.
+		if i == 0 && t.Prob(1, 8, "storage_keys_sharing_an_8_octet_prefix") {
+			if a, b := collidingStorageKeys(); a != "" {
+				ka := merklization.WrapEncodeDelta2KeyVal(id, types.ByteSequence(a), nil).Key
+				kb := merklization.WrapEncodeDelta2KeyVal(id, types.ByteSequence(b), nil).Key
+				if bytes.Equal(ka[:8], kb[:8]) && ka != kb {
+					ac.StorageDict[a] = types.ByteSequence("first of two entries with a common state-key prefix")
+					ac.StorageDict[b] = types.ByteSequence("second")
+					g.prefixTwins = true
+				}
+			}
+		}
 		// one blob may be wanted by several services at once (each is served separately)
 		if g.sharedBlob != nil {
 			g.solicited[id] = append(g.solicited[id], g.sharedBlob)
 			ac.LookupDict[types.LookupMetaMapkey{Hash: h256(g.sharedBlob), Length: types.U32(len(g.sharedBlob))}] = types.TimeSlotSet{}
+		}
+		// MANY requests at once (one history in six, first service): the author then provides dozens to hundreds of
+		// blobs in one extrinsic - lists longer than any batch or chunk size an implementation may work in
+		if i == 0 && t.Prob(1, 6, "many_solicited") {
+			n := []int{140, 200, 300}[t.Choose(3, "many_solicited_n")]
+			for k := 0; k < n; k++ {
+				blob := []byte(fmt.Sprintf("%c-one-of-many-solicited-%d-%d", 'a'+byte(k*7%26), id, k))
+				g.solicited[id] = append(g.solicited[id], blob)
+				ac.LookupDict[types.LookupMetaMapkey{Hash: h256(blob), Length: types.U32(len(blob))}] = types.TimeSlotSet{}
+			}
+			g.manySolicited = n
 		}
 		nSolicited := t.Range(1, 4, "nsolicited")
 		for k := 0; k < nSolicited; k++ {
@@ -557,4 +585,27 @@ func mkGenesis(t *sim.Tape) *genesis {
 	g.header = types.Header{Slot: st.Tau}
 	g.header.OffendersMark = types.OffendersMark{}
 	return g
+}
+
+var twinKeys struct {
+	once sync.Once
+	a, b string
+}
+
+// collidingStorageKeys returns two storage keys whose state keys (for any one service) agree in the first eight octets.
+func collidingStorageKeys() (string, string) {
+	twinKeys.once.Do(func() {
+		seen := make(map[[8]byte]int32, 1<<17)
+		for n := 0; n < 1500000; n++ {
+			kv := merklization.WrapEncodeDelta2KeyVal(1, types.ByteSequence(fmt.Sprintf("item-%d", n)), nil)
+			var p [8]byte
+			copy(p[:], kv.Key[:8])
+			if m, ok := seen[p]; ok {
+				twinKeys.a, twinKeys.b = fmt.Sprintf("item-%d", m), fmt.Sprintf("item-%d", n)
+				return
+			}
+			seen[p] = int32(n)
+		}
+	})
+	return twinKeys.a, twinKeys.b
 }
